@@ -300,4 +300,47 @@ example :
   · decide +kernel
   · decide +kernel
 
+/-! ### 7. the option `remove_empties` (records keep their empty summaries) -/
+
+/-- **one record per cell, in cell order, for BOTH values of `remove_empties`**, carrying that cell's period,
+evaluation date and development lag -/
+theorem records_one_per_cell_in_order_opt (b : Bool) (ms : List Metric) (t : List Cell) :
+    (buildPlotDataOpt b ms t).map (fun r => (r.base.ps, r.base.pe, r.base.ev, r.base.devLag)) =
+      t.map (fun c => (c.ps, c.pe, c.ev, devLagMonths c.pe c.ev)) := by
+  simp [buildPlotDataOpt, mkRecord, Cell.devLag, calculateDevLag, Function.comp_def]
+
+/-- for both option values the records carry exactly the coordinates, fields and non-empty summaries of the
+default call: every theorem about `buildPlotData` speaks about them, too -/
+theorem records_base_eq (b : Bool) (ms : List Metric) (t : List Cell) :
+    (buildPlotDataOpt b ms t).map (·.base) = buildPlotData ms t := base_eq b ms t
+
+/-- with `remove_empties=False` every record of a valid triangle has one slot per metric of the table, in table
+order; a slot is empty exactly when the default call has no summary under that name -/
+theorem record_slots {t : List Cell} (hv : ValidT t) (ms : List Metric) {c : Cell} (hc : c ∈ t) :
+    (lookupLastAll c (fieldSummariesAll ms t)).map (·.1) = ms.map (toSnake ·.name) ∧
+    nonEmpty (lookupLastAll c (fieldSummariesAll ms t)) = lookupLast c (fieldSummaries ms t) :=
+  ⟨own_entries_names hv ms hc, by rw [fieldSummaries_eq_map, lookupLast_map]⟩
+
+/-- THE BRIDGE for both option values: the WHOLE Spec (`holds` on the records — one per cell in order, values,
+absent inputs, monotone — plus slots and tooltip sources) holds on the model's output -/
+theorem spec_holds_on_model_opt (b : Bool) (t : List Cell) (hv : ValidT t) :
+    Spec.C20.holdsOpt b 0 t (buildPlotDataOpt b Generated.PlotMetrics.metrics t) = true := by
+  unfold Spec.C20.holdsOpt
+  simp only [Bool.and_eq_true]
+  refine ⟨⟨?_, entriesOk_model hv b⟩, tooltipOk_model b _ t⟩
+  rw [base_eq]
+  exact spec_holds_on_model t hv
+
+/-- non-vacuity: a cell without premium keeps an EMPTY loss-ratio slot with remove_empties=False and the
+tooltip is joined from the fields the cell holds -/
+example :
+    let t : List Cell := [{ ps := ⟨2020, 1, 1⟩, pe := ⟨2020, 12, 31⟩, ev := ⟨2020, 12, 31⟩,
+                            values := [("paid_loss", .int 2)] }]
+    ((buildPlotDataOpt false Generated.PlotMetrics.metrics t).map fun r =>
+        (r.entries.length, r.entries.lookup "paid_loss_ratio", (r.entries.lookup "paid_loss").map (·.isSome),
+         r.tooltip)) = [(12, some none, some true, ["paid_loss"])] ∧
+    ((buildPlotDataOpt true Generated.PlotMetrics.metrics t).map fun r => r.entries.map (·.1)) =
+      [["paid_loss"]] := by
+  decide +kernel
+
 end Bermuda.Properties.C20
